@@ -23,3 +23,67 @@ package rdbrestore
 //@   ensures all_replies_ok: result == nil ==> recvErrs == old(recvErrs)
 //@   loop 1:
 //@     invariant none_failed: recvErrs == old(recvErrs)
+
+// ---- key-exists policy on the plain full-sync path (C20) ------------------------------------
+//   probed    result of the EXISTS probe of the first chunk (-1 not probed, 0 absent, 1 present)
+//   expanded  number of times a value (chunk) was expanded into native commands on the target
+//   nDel / nPexpire  DEL / PEXPIRE requests issued (ghost log of client.Redis.Do)
+
+func SpecReplyTruth(reply interface{}) bool { panic("abstract spec function") }
+
+//@ spec SpecReplyTruth abstract
+
+//@ func common.Bool(reply, err) (b, e2)
+//@   trusted abstract reply decoding
+//@   ensures err_passes: err != nil ==> e2 != nil
+
+//@ func common.Int64(reply, err) (n, e2)
+//@   trusted abstract reply decoding
+//@   ensures err_passes: err != nil ==> e2 != nil
+
+//@ func common.String(reply, err) (s, e2)
+//@   trusted abstract reply decoding
+//@   ensures err_passes: err != nil ==> e2 != nil
+
+//@ func rdb.Parser.Type(self) (t)
+//@   trusted frame (pure accessor)
+//@ func rdb.Parser.ValueDumpSize(self) (n)
+//@   trusted frame (pure accessor)
+//@ func rdb.Parser.IsSplited(self) (b)
+//@   trusted frame (pure accessor)
+//@ func rdb.BinEntry.CanRestore(self) (b)
+//@   trusted frame (pure accessor)
+//@ func rdb.BinEntry.FirstBin(self) (b)
+//@   trusted frame (pure accessor)
+//@ func rdb.BinEntry.DumpValue(self) (v)
+//@   trusted frame (serialises the value into a fresh buffer)
+//@ func util.VersionGE(a, b, level) (r)
+//@   trusted frame (pure)
+//@ func bytes.Replace(s, old, new, n) (r)
+//@   trusted library contract (fresh result)
+//@ func restoreOnce(cli, e) (err)
+//@   trusted abstract: function / aux entries are replayed as they are (no key-exists policy applies)
+
+//@ func restoreBigRdbEntry(cli, e) (err)
+//@   trusted abstract: expands one chunk of the value into native commands on the target
+//@   modifies expanded
+//@   ensures counted: expanded == old(expanded) + 1
+
+//@ func body:RdbReplay.Replay
+//@   arith int
+//@   properties C20
+//@   replay rdbrestore_Replay
+//@   ghost var probed mathint = 0 - 1
+//@   ghost var expanded mathint
+//@   ghost var nDel mathint
+//@   ghost var nPexpire mathint
+//@   requires nonnil: rr != nil && e != nil && rr.Client != nil && e.ObjectParser != nil
+//@   modifies e.Key, rr.skippedKey, probed, expanded, reqs, lastCmd, lastNArgs, lastA1, lastA2, lastA3, lastA4, lastReply, nDel, nPexpire
+//@   set probed = ite(exist, 1, 0) after store exist
+//@   set probed = ite(err#2 != nil, 0 - 1, probed) after store err#2
+//@   ensures ignore_keeps_existing_key: probed == 1 && rr.KeyExists == "ignore" ==> err == nil && expanded == old(expanded) && nPexpire == old(nPexpire) && nDel == old(nDel)
+//@   ensures error_stops_before_writing: probed == 1 && rr.KeyExists == "error" ==> err != nil && expanded == old(expanded) && nDel == old(nDel) && nPexpire == old(nPexpire)
+//@   ensures replace_deletes_first: probed == 1 && rr.KeyExists == "replace" && err == nil ==> nDel == old(nDel) + 1 && expanded == old(expanded) + 1
+//@   ensures absent_key_is_written: probed == 0 && err == nil ==> expanded == old(expanded) + 1 && nDel == old(nDel)
+//@   loop 1:
+//@     invariant restore_path: fresh(params) && probed == 0 - 1 && expanded == old(expanded) && nDel == old(nDel) && nPexpire == old(nPexpire)
